@@ -192,7 +192,7 @@ def run_group(prop, tier, seed, t0, families, module, cfg, prefixes, mcs, need_h
     return rc
 
 
-SPLIT_FAMILIES = {"conflict"}
+SPLIT_FAMILIES = {"conflict", "probecases"}
 FAMILY_MODULE = {"conflict": ("TraceRespond", "TraceRespond.cfg"), "respond": ("TraceRespond", "TraceRespond.cfg"), "browse": ("TraceBrowse", "TraceBrowse.cfg"), "browsew": ("TraceBrowse", "TraceBrowse.cfg"),
                  "resolve": ("TraceBrowse", "TraceBrowse.cfg"), "resolvew": ("TraceBrowse", "TraceBrowse.cfg"), "flood": ("TraceBrowse", "TraceBrowse.cfg"),
                  "silent": ("TraceBrowse", "TraceBrowse.cfg")}
